@@ -59,6 +59,24 @@ def _expect(task, scores, want, case):
             raise Violation("%s.evaluate(x, copy(x))[%r] = %r, the optimum is %r; x = %r, kwargs %r" % (task, k, v, w, case["ref"], case["kw"]))
 
 
+def _interchangeable_notes(notes, kw, with_offset, velocity):
+    """two notes of x with different intervals such that the second is an admissible partner of the first under the matching criteria
+    (onset, pitch, optionally offset; velocity never decides x against its copy because the regression is exact there)"""
+    ot, pt = kw.get("onset_tolerance", 0.05), kw.get("pitch_tolerance", 50.0)
+    ratio, omin = kw.get("offset_ratio", 0.2), kw.get("offset_min_tolerance", 0.05)
+    eps = 1e-6
+    for i, a in enumerate(notes):
+        for j, b in enumerate(notes):
+            if i == j or (a[0] == b[0] and a[1] == b[1]):
+                continue
+            if abs(a[0] - b[0]) > ot + eps or abs(1200.0 * math.log2(a[2] / b[2])) > pt + eps:
+                continue
+            if with_offset and ratio is not None and abs(a[1] - b[1]) > max(ratio * (a[1] - a[0]), omin) + eps:
+                continue
+            return True
+    return False
+
+
 def make_pred(task):
     mod = R.module(task)
 
@@ -204,7 +222,21 @@ def make_pred(task):
             want = {"pc": 1, "mae": 0, "aae": 0, "pcs": 1}
         args, k2 = R.build(task, c)
         scores = ctx.call(mod.evaluate, *args, **k2)
+        aor = {}
+        if task in ("transcription", "transcription_velocity"):
+            aor = {k: want.pop(k) for k in list(want) if k.startswith("Average_Overlap_Ratio")}
         _expect(task, scores, want, c)
+        for k in aor:
+            v = float(scores[k])
+            if abs(v - 1) <= TOL:
+                continue
+            # The overlap ratio is averaged over WHICHEVER maximum matching the library finds.  For x against its copy the identity
+            # matching gives 1, but when two different notes of x are interchangeable under the criteria (KF-14) another maximum
+            # matching exists and may be the one found.  Anything else below 1 is a violation.
+            if _interchangeable_notes(ref, kw, with_offset=(k == "Average_Overlap_Ratio"), velocity=(task == "transcription_velocity")):
+                ctx.known("c02.transcription:overlap_ratio_of_a_copy_below_one_when_notes_are_interchangeable", "%s = %r" % (k, v))
+            else:
+                raise Violation("%s.evaluate(x, copy(x))[%r] = %r, the optimum is 1 and no two notes of x are interchangeable; x = %r, kwargs %r" % (task, k, v, ref, kw))
         if any(v == 0 for k, v in want.items() if "Error" not in k and "deviation" not in k and k not in ("mae", "aae", "Voicing False Alarm")):
             ctx.event("documented_zero_convention")
         feature = bool(kw) or task == "key" or (task == "chord" and len(set(ref["lab"])) >= 2)
